@@ -70,15 +70,15 @@ REACH = ["treecompare:symmetric_difference", "treecompare:false_positives_and_ne
          "_tree:Tree.robinson_foulds_distance", "_tree:Tree.euclidean_distance",
          "_tree:Tree.encode_bipartitions", "_tree:Tree._get_bipartition_edge_map",
          "_tree:Tree.collapse_basal_bifurcation", "_bipartition:Bipartition.__hash__", "_bipartition:Bipartition.__eq__"]
-MIN_EVENTS = {"value-judged:sd": (30000, 100000), "value-judged:fpfn": (30000, 100000),
-              "value-judged:wrf": (20000, 60000), "value-judged:euclid": (20000, 60000),
-              "value-judged:missing": (5000, 20000),
-              "symmetry-checked": (50000, 100000), "triangle-checked": (200000, 100000),
-              "redraw-zero-checked": (15000, 30000), "invariance-checked": (40000, 30000),
-              "journal-call-after-edit": (600, 15000), "namespace-refusal-checked": (5000, 3000),
-              "refusal-with-missing-lengths": (10000, 2000),
-              "hook:treecompare.symmetric_difference:call": (30000, 50000),
-              "hook:Tree.symmetric_difference:call": (800, 1000)}
+MIN_EVENTS = {"value-judged:sd": (30000, 180000), "value-judged:fpfn": (30000, 180000),
+              "value-judged:wrf": (20000, 120000), "value-judged:euclid": (20000, 120000),
+              "value-judged:missing": (5000, 25000),
+              "symmetry-checked": (50000, 300000), "triangle-checked": (200000, 1400000),
+              "redraw-zero-checked": (15000, 80000), "invariance-checked": (40000, 300000),
+              "journal-call-after-edit": (600, 9000), "namespace-refusal-checked": (5000, 30000),
+              "refusal-with-missing-lengths": (10000, 80000),
+              "hook:treecompare.symmetric_difference:call": (30000, 180000),
+              "hook:Tree.symmetric_difference:call": (800, 5000)}
 ASSUMPTIONS = ["reference split -> length maps come from vf.ref.split_lengths on specs read from the raw child lists "
                "before each call; the root edge counts as the split {all taxa | nothing}",
                "TaxonNamespace.taxon_bitmask is taken as the given taxon->bit assignment when decoding the Bipartition "
@@ -323,10 +323,13 @@ class Monitor(object):
                               self._detail(snap))
             else:
                 st["status"] = "ok"
-        if st["status"] == "ok" and self.nsamples < 2 and (exp["sd"] > 0) and len(m1) > 5:
+        want = ("sd", "wrf", "fpfn", "euclid", "missing")[len(ctx.samples) % 5]
+        if st["status"] == "ok" and self.nsamples < 1 and kind == want and (exp["sd"] > 0) and len(m1) > 5:
             self.nsamples += 1
             ctx.sample({"call": tag, "tree1": ref.to_newick(snap["sp1"]), "tree2": ref.to_newick(snap["sp2"]),
-                        "rooted": snap["rooted"], "returned": _brief(result), "definition": _brief(exp[kind])})
+                        "rooted": snap["rooted"],
+                        "returned": _splits_text(got[0]) if kind == "missing" else _brief(result),
+                        "definition": _splits_text(exp[kind]) if kind == "missing" else _brief(exp[kind])})
 
     # -- helpers ------------------------------------------------------------------------------------
     def _detail(self, snap):
@@ -357,10 +360,13 @@ class Monitor(object):
         generic = "%s|value-differs-from-definition" % tag
         if isinstance(got, bool) or not isinstance(got, (int, float)):
             return generic + "|not-a-number", ""
-        if stale(lambda e: U.close(got, e[kind], exact)):
-            return generic + "|stale-bipartitions", " (equals the definition on the previously encoded structures)"
-        if snap["rooted"] or snap["t1"] is snap["t2"]:
+        def or_stale():
+            # only a discriminator; looked at last because on the length grid a stale value can coincide with another one
+            if stale(lambda e: U.close(got, e[kind], exact)):
+                return generic + "|stale-bipartitions", " (equals the definition on the previously encoded structures)"
             return generic, ""
+        if snap["rooted"] or snap["t1"] is snap["t2"]:
+            return or_stale()
         # known mechanism: unrooted tree left with a bifurcating seed; bipartition_edge_map keeps one of the two
         # basal edges, i.e. one of two lengths of the same split
         cands = []
@@ -387,7 +393,7 @@ class Monitor(object):
                     continue
                 if U.close(got, U.expected(a, b)[kind], exact):
                     return (K_TWOLEAF if twoleaf else K_BASAL), " (equals the definition with one basal edge length dropped)"
-        return generic, ""
+        return or_stale()
 
 
 def _is_length_refusal(exc):
@@ -396,6 +402,14 @@ def _is_length_refusal(exc):
         return False
     fr = core.innermost_repo_frame(exc)
     return fr is not None and fr[1] == "treecompare.py" and core.raised_in_repo(exc)
+
+
+def _splits_text(splits):
+    def one(x):
+        if x and all(isinstance(y, frozenset) for y in x):
+            return " | ".join(sorted(",".join(sorted(side)) for side in x))
+        return ",".join(sorted(x))
+    return sorted(one(x) for x in splits)
 
 
 def _brief(v):
